@@ -57,7 +57,98 @@ func c06Check(k c06Case) (key, detail string) {
 	return
 }
 
+// c06Reuse decodes a sequence of messages into the SAME destination value (the zero-allocation design
+// reuses the destination's storage): every result must still be the value the message carries.
+func c06Reuse(k c06Case) (string, string) {
+	tid := tid12(k.TID)
+	addrs := []ref.Addr{
+		{IP: []byte{10, 0, 0, 1}, Port: 1111},
+		{IP: net.ParseIP("2001:db8::aa"), Port: 2222},
+		{IP: []byte{192, 0, 2, 33}, Port: 3333},
+		{IP: net.ParseIP("fe80::1"), Port: 4444},
+	}
+	// k.N encodes the order: a permutation index over 3 decodes
+	orders := [][]int{{1, 0, 3}, {0, 1, 2}, {1, 2, 0}, {3, 1, 0}, {0, 2, 1}, {1, 3, 1}}
+	order := orders[k.Len%len(orders)]
+	at := k.Attr
+	var xa stun.XORMappedAddress
+	var ma stun.MappedAddress
+	var as stun.AlternateServer
+	var ro stun.ResponseOrigin
+	var oa stun.OtherAddress
+	for step, ai := range order {
+		a := addrs[ai]
+		var val []byte
+		if k.Kind == "reuse-xor" {
+			val = ref.EncodeXORMappedAddress(a, tid)
+		} else {
+			val = ref.EncodeMappedAddress(a)
+		}
+		d, derr := decodeCopy(ref.Encode(ref.TypeWord(1, 2), tid, []ref.EncodeAttr{{Type: at, Value: val}}))
+		if derr != nil {
+			return "reuse-redecode", derr.Error()
+		}
+		var gotIP net.IP
+		var gotPort int
+		var gerr error
+		switch {
+		case k.Kind == "reuse-xor" && at == 0x0020:
+			gerr = xa.GetFrom(d)
+			gotIP, gotPort = xa.IP, xa.Port
+		case k.Kind == "reuse-xor":
+			gerr = xa.GetFromAs(d, stun.AttrType(at))
+			gotIP, gotPort = xa.IP, xa.Port
+		case at == 0x0001:
+			gerr = ma.GetFrom(d)
+			gotIP, gotPort = ma.IP, ma.Port
+		case at == 0x8023:
+			gerr = as.GetFrom(d)
+			gotIP, gotPort = as.IP, as.Port
+		case at == 0x802b:
+			gerr = ro.GetFrom(d)
+			gotIP, gotPort = ro.IP, ro.Port
+		case at == 0x802c:
+			gerr = oa.GetFrom(d)
+			gotIP, gotPort = oa.IP, oa.Port
+		}
+		if gerr != nil || gotPort != a.Port || !bytes.Equal(gotIP, a.IP) {
+			return "reused-destination/" + k.Kind, fmt.Sprintf("decode %d of %v into one reused destination (attr %#x): got %v:%d err %v, message carries %v:%d", step+1, order, at, gotIP, gotPort, gerr, net.IP(a.IP), a.Port)
+		}
+	}
+	// UNKNOWN-ATTRIBUTES and ERROR-CODE into reused destinations: long then short
+	var ua stun.UnknownAttributes
+	for _, n := range []int{5, 2, 0, 7, 1} {
+		ts := make([]uint16, n)
+		for i := range ts {
+			ts[i] = uint16(0x8000 + n*16 + i)
+		}
+		d, _ := decodeCopy(ref.Encode(ref.TypeWord(1, 3), tid, []ref.EncodeAttr{{Type: 0x000A, Value: ref.EncodeUnknownAttributes(ts)}}))
+		if err := ua.GetFrom(d); err != nil || len(ua) != n {
+			return "reused-destination/unknown", fmt.Sprintf("UNKNOWN-ATTRIBUTES with %d entries into a reused destination: %d entries, err %v", n, len(ua), err)
+		}
+		for i := range ts {
+			if uint16(ua[i]) != ts[i] {
+				return "reused-destination/unknown", fmt.Sprintf("entry %d is %#x want %#x", i, uint16(ua[i]), ts[i])
+			}
+		}
+	}
+	var ec stun.ErrorCodeAttribute
+	for _, cr := range []struct {
+		c int
+		r string
+	}{{438, "Stale Nonce, rather long reason"}, {401, ""}, {699, "x"}} {
+		d, _ := decodeCopy(ref.Encode(ref.TypeWord(1, 3), tid, []ref.EncodeAttr{{Type: 0x0009, Value: ref.EncodeErrorCode(cr.c, []byte(cr.r))}}))
+		if err := ec.GetFrom(d); err != nil || int(ec.Code) != cr.c || string(ec.Reason) != cr.r {
+			return "reused-destination/errcode", fmt.Sprintf("ERROR-CODE %d %q into a reused destination: %d %q err %v", cr.c, cr.r, ec.Code, ec.Reason, err)
+		}
+	}
+	return "", ""
+}
+
 func c06Check1(k c06Case) (string, string) {
+	if k.Kind == "reuse-xor" || k.Kind == "reuse-mapped" {
+		return c06Reuse(k)
+	}
 	tid := tid12(k.TID)
 	m := new(stun.Message)
 	m.TransactionID = tid
@@ -359,6 +450,17 @@ func init() {
 						tid[pos] = byte(v)
 						do(c06Case{Kind: "xor", Attr: 0x0020, IP: base, Port: 4242, TID: tid}, "xor/tidbyte")
 					}
+				}
+			}
+			// destination values reused across decodes (IPv6 then IPv4 and back), every getter, 6 orders
+			for _, at := range xorAttrs {
+				for o := 0; o < 6; o++ {
+					do(c06Case{Kind: "reuse-xor", Attr: at, Len: o, TID: tids[2]}, "reuse")
+				}
+			}
+			for _, at := range mappedAttrs {
+				for o := 0; o < 6; o++ {
+					do(c06Case{Kind: "reuse-mapped", Attr: at, Len: o, TID: tids[3]}, "reuse")
 				}
 			}
 			// text attributes: every length up to the limit
